@@ -559,6 +559,12 @@ def exhaustive(ctx):
                 cases.append(dict(h=3, w=3, screen=[], sb=[], cursor=(crow, 0), hide=True, keep=False, pyte=False,
                                   steps=[("E",), ("R", (0, 0), [[first] if first[0] else []], c1),
                                          ("R", (0, 1), [[second] if second[0] else []], c2), ("X",)]))
+    # rows that were turned into strings before, rendered twice as the same objects
+    two = [[("abcdefgh", {"fg": 31})], [("ab", {}), ("cdefgh", {"fg": 31})]]
+    for crow, pre in itertools.product((0, 1, 2), (False, True)):
+        cases.append(dict(h=3, w=10, screen=[], sb=[], cursor=(crow, 0), hide=True, keep=False, pyte=False,
+                          steps=[("E",), ("R", (0, 0), two, "list", dict(prestr=pre)),
+                                 ("R", (1, 1), two, "list", dict(same_rows=True, prestr=pre)), ("X",)]))
     # leaving with keep_last_line on/off with the cursor on EVERY row, in particular the bottom one (the kept line must
     # survive: the screen scrolls one line), after 0-2 rendered rows
     for h2, crow, n, keep in itertools.product((1, 2, 3), range(3), range(3), (0, 1)):
